@@ -33,7 +33,11 @@ fn rename(e: &Exp, from: &str, to: &str) -> Exp {
 fn collision_case(r: &mut Rng) -> Case {
     let v = |n: &str| Exp::Variable(n.into());
     let k = |x: f64| Exp::Number(x);
-    let (aux, aux_ty, trigger): (&str, VariableType, Exp) = match r.below(8) {
+    let (aux, aux_ty, trigger): (&str, VariableType, Exp) = match r.below(12) {
+        8 => ("$min_0", VariableType::Real(-3.0, 3.0), Exp::BinOp(BinOp::Add, Box::new(Exp::Min(vec![v("z"), v("y")])), Box::new(k(0.0)))),
+        9 => ("$max_0_select_0", VariableType::Boolean, Exp::BinOp(BinOp::Add, Box::new(Exp::Max(vec![v("z"), v("y")])), Box::new(k(0.0)))),
+        10 => ("$min_0_select_1", VariableType::Boolean, Exp::BinOp(BinOp::Add, Box::new(Exp::Min(vec![v("z"), v("y")])), Box::new(k(0.0)))),
+        11 => ("$and_1", VariableType::Boolean, Exp::BinOp(BinOp::Add, Box::new(Exp::And(vec![v("a"), Exp::And(vec![v("b"), v("a")])])), Box::new(Exp::BinOp(BinOp::Add, Box::new(Exp::And(vec![v("b"), v("a")])), Box::new(v("y")))))),
         0 => ("$or_0", VariableType::Boolean, Exp::BinOp(BinOp::Add, Box::new(Exp::Or(vec![v("a"), v("b")])), Box::new(v("y")))),
         1 => ("$and_0", VariableType::Boolean, Exp::BinOp(BinOp::Add, Box::new(Exp::And(vec![v("a"), v("b")])), Box::new(v("y")))),
         2 => ("$xor_0", VariableType::Boolean, Exp::BinOp(BinOp::Add, Box::new(Exp::Xor(Box::new(v("a")), Box::new(v("b")))), Box::new(v("y")))),
@@ -85,6 +89,261 @@ fn check_missing_bounds(m: &Model, c: &mut Case) {
         }
         if variables.is_empty() { c.tags.push("missing-bounds-none-identified".into()); }
     }
+    // … and must name EVERY source variable of the offending expression whose derived range is not finite
+    // (`Props.C08.missing_bounds_payload_spec` / `missing_bounds_error_global`: the payload is exactly that set, sorted)
+    if let Err(LinearizationError::MissingFiniteBounds { expression, variables, .. }) = Linearizer::linearize(m.clone()) {
+        let rep = rooc::verif_hooks::linearizer_bounds(m.domain(), m.constraints());
+        let mut occ = vec![];
+        exp_vars(&expression, &mut occ);
+        for v in occ {
+            if let Some((_, lo, hi)) = rep.variables.iter().find(|(n, _, _)| *n == v) {
+                if (!lo.is_finite() || !hi.is_finite()) && !variables.contains(&v) && c.impl_violation.is_none() {
+                    c.impl_violation = Some(format!("MissingFiniteBounds for {} does not name {} whose derived range is [{}, {}] (names: {:?})", expression, v, lo, hi, variables));
+                }
+            }
+        }
+    }
+}
+
+/// coverage boost for the reified logic auxiliaries (`$iff_k`, `$implies_k`, `$xor_k`, `$and_k`, `$or_k`) and the
+/// `NonBinaryLogicOperand` error: a logic operator in VALUE position, operands Boolean variables, 0/1 literals,
+/// negations, or (hostile) a real variable / the literal 2.
+fn logic_aux_case(r: &mut Rng) -> Case {
+    let v = |n: &str| Exp::Variable(n.into());
+    let k = |x: f64| Exp::Number(x);
+    let mut operand = |r: &mut Rng| -> Exp {
+        match r.below(9) {
+            0 | 1 => v("a"), 2 | 3 => v("b"), 4 => Exp::Not(Box::new(v("c"))), 5 => v("c"),
+            6 => k(if r.chance(1, 2) { 1.0 } else { 0.0 }),
+            7 => v("y"),          // not Boolean: NonBinaryLogicOperand
+            _ => k(2.0),          // not 0/1: NonBinaryLogicOperand
+        }
+    };
+    let x = operand(r); let y = operand(r);
+    let logic = match r.below(6) {
+        0 => Exp::Iff(Box::new(x), Box::new(y)),
+        1 => Exp::Implies(Box::new(x), Box::new(y)),
+        2 => Exp::Xor(Box::new(x), Box::new(y)),
+        3 => Exp::And(vec![x, y, operand(r)]),
+        4 => Exp::Or(vec![x, y]),
+        _ => Exp::Iff(Box::new(Exp::Implies(Box::new(x), Box::new(y))), Box::new(operand(r))),
+    };
+    let ds = vec![
+        VarDecl { name: "a".into(), ty: VariableType::Boolean }, VarDecl { name: "b".into(), ty: VariableType::Boolean },
+        VarDecl { name: "c".into(), ty: VariableType::Boolean }, VarDecl { name: "y".into(), ty: VariableType::Real(-3.0, 3.0) },
+    ];
+    // value position: the logic expression is an addend
+    let lhs = Exp::BinOp(BinOp::Add, Box::new(logic.clone()), Box::new(v("y")));
+    let cmp = *r.pick(&[Comparison::LessOrEqual, Comparison::GreaterOrEqual, Comparison::Equal]);
+    let cons = vec![Constraint::new(lhs, cmp, k(1.0), if r.chance(1, 2) { "t".into() } else { String::new() })];
+    let obj = if r.chance(1, 3) { Exp::BinOp(BinOp::Add, Box::new(logic), Box::new(v("y"))) } else { v("y") };
+    let m = gen_model::build(if r.chance(1, 2) { OptimizationType::Max } else { OptimizationType::Min }, obj, cons, &ds);
+    crate::props::c01::one(&m, "logic-aux", "c08")
+}
+
+/// metamorphic check of determinism up to the order of the domain map: the same objective and constraints with the
+/// declarations in a different order must compile to the same variables, objective, offset and rows, and to the same
+/// domain as a SET (the order of `LinearModel::domain` follows the declaration order).
+fn permutation_case(r: &mut Rng, tag: &str, cfg: &ModelCfg) -> Case {
+    let (m, ds) = gen_model::model(r, cfg);
+    let mut c = crate::props::c01::one(&m, tag, "c08");
+    c.tags.push("domain-permutation".into());
+    if ds.len() < 2 { return c; }
+    let mut ds2: Vec<VarDecl> = ds.iter().map(|d| VarDecl { name: d.name.clone(), ty: d.ty }).collect();
+    match r.below(3) { 0 => ds2.reverse(), 1 => { let k = 1 + r.below(ds2.len() - 1); ds2.rotate_left(k); } _ => { let i = r.below(ds2.len()); let j = r.below(ds2.len()); ds2.swap(i, j); } }
+    let m2 = gen_model::build(m.objective().objective_type.clone(), m.objective().rhs.clone(), m.constraints().to_vec(), &ds2);
+    let a = Linearizer::linearize(m);
+    let b = Linearizer::linearize(m2);
+    match (&a, &b) {
+        (Ok(la), Ok(lb)) => {
+            let rows = |l: &rooc::LinearModel| l.constraints().iter().map(|c| format!("{}|{:?}|{:?}|{:?}", c.name(), c.coefficients().iter().map(|x| x.to_bits()).collect::<Vec<_>>(), c.constraint_type(), c.rhs().to_bits())).collect::<Vec<_>>();
+            let mut da: Vec<String> = la.domain().iter().map(|(n, d)| format!("{}:{:?}", n, d.get_type())).collect();
+            let mut db: Vec<String> = lb.domain().iter().map(|(n, d)| format!("{}:{:?}", n, d.get_type())).collect();
+            da.sort(); db.sort();
+            let same = la.variables() == lb.variables() && rows(la) == rows(lb)
+                && la.objective().iter().map(|x| x.to_bits()).collect::<Vec<_>>() == lb.objective().iter().map(|x| x.to_bits()).collect::<Vec<_>>()
+                && la.objective_offset().to_bits() == lb.objective_offset().to_bits() && da == db;
+            if !same { c.impl_violation = Some("the compiled model depends on the ORDER of the variable declarations".into()); }
+            else { c.tags.push("permutation-invariant".into()); }
+        }
+        (Err(ea), Err(eb)) => {
+            if crate::props::c01::lin_error(ea) != crate::props::c01::lin_error(eb) {
+                c.impl_violation = Some(format!("the compilation error depends on the order of the declarations: {} vs {}", crate::props::c01::lin_error(ea), crate::props::c01::lin_error(eb)));
+            } else { c.tags.push("permutation-invariant".into()); }
+        }
+        _ => { c.impl_violation = Some("compilation succeeds or fails depending on the order of the variable declarations".into()); }
+    }
+    c
+}
+
+fn has_huge_literal(e: &Exp) -> bool {
+    match e {
+        Exp::Number(v) => v.is_finite() && (v.abs() >= 1e100 || (*v != 0.0 && v.abs() <= 1e-100)),
+        Exp::Variable(_) => false,
+        Exp::Abs(x) | Exp::Not(x) | Exp::UnOp(_, x) => has_huge_literal(x),
+        Exp::Min(es) | Exp::Max(es) | Exp::And(es) | Exp::Or(es) => es.iter().any(has_huge_literal),
+        Exp::Xor(x, y) | Exp::Implies(x, y) | Exp::Iff(x, y) | Exp::BinOp(_, x, y) => has_huge_literal(x) || has_huge_literal(y),
+    }
+}
+
+/// finite literals whose folded product / quotient leaves the range of f64: the exact-arithmetic theorem
+/// `finite_out_partial` cannot see this region (root-cause flag `huge-literal`).
+fn overflow_case(r: &mut Rng) -> Case {
+    let v = |n: &str| Exp::Variable(n.into());
+    let k = |x: f64| Exp::Number(x);
+    let mul = |a: Exp, b: Exp| Exp::BinOp(BinOp::Mul, Box::new(a), Box::new(b));
+    let div = |a: Exp, b: Exp| Exp::BinOp(BinOp::Div, Box::new(a), Box::new(b));
+    let add = |a: Exp, b: Exp| Exp::BinOp(BinOp::Add, Box::new(a), Box::new(b));
+    let big = |r: &mut Rng| *r.pick(&[1e200, 1e300, -1e250, 1e154, 1e155, 1.7e308, -1e308]);
+    let tiny = |r: &mut Rng| *r.pick(&[1e-200, 1e-300, -1e-250, 5e-324]);
+    let lhs = match r.below(6) {
+        0 => mul(k(big(r)), mul(k(big(r)), v("x"))),
+        1 => div(div(v("x"), k(tiny(r))), k(tiny(r))),
+        2 => add(mul(k(big(r)), v("x")), mul(k(big(r)), v("x"))),
+        3 => mul(mul(k(big(r)), k(big(r))), v("y")),
+        4 => add(v("x"), mul(k(big(r)), k(big(r)))),
+        _ => mul(k(big(r)), add(mul(k(big(r)), v("x")), v("y"))),
+    };
+    let rhs = if r.chance(1, 4) { mul(k(big(r)), k(big(r))) } else { k(1.0) };
+    let ds = vec![
+        VarDecl { name: "x".into(), ty: VariableType::NonNegativeReal(0.0, f64::INFINITY) },
+        VarDecl { name: "y".into(), ty: VariableType::Real(-3.0, 3.0) },
+    ];
+    let cmp = *r.pick(&[Comparison::LessOrEqual, Comparison::GreaterOrEqual, Comparison::Equal]);
+    let cons = vec![Constraint::new(lhs, cmp, rhs, if r.chance(1, 2) { "big".into() } else { String::new() })];
+    let obj = if r.chance(1, 4) { mul(k(big(r)), mul(k(big(r)), v("x"))) } else { v("x") };
+    let m = gen_model::build(OptimizationType::Min, obj, cons, &ds);
+    let huge = std::iter::once(&m.objective().rhs).chain(m.constraints().iter().flat_map(|c| [c.lhs(), c.rhs()])).any(has_huge_literal);
+    let mut c = crate::props::c01::one(&m, "overflow", "c08");
+    if huge {
+        c.sig = Some(match c.sig.take() { Some(s) => format!("{},huge-literal", s), None => "huge-literal".into() });
+    }
+    c
+}
+
+fn exp_vars(e: &Exp, out: &mut Vec<String>) {
+    match e {
+        Exp::Number(_) => {}
+        Exp::Variable(n) => out.push(n.clone()),
+        Exp::Abs(x) | Exp::Not(x) | Exp::UnOp(_, x) => exp_vars(x, out),
+        Exp::Min(es) | Exp::Max(es) | Exp::And(es) | Exp::Or(es) => es.iter().for_each(|x| exp_vars(x, out)),
+        Exp::Xor(x, y) | Exp::Implies(x, y) | Exp::Iff(x, y) | Exp::BinOp(_, x, y) => { exp_vars(x, out); exp_vars(y, out); }
+    }
+}
+
+/// the variable-list contract, checked directly on the implementation's output (the exact oracle checks the same
+/// clauses through `WF.report`; this is the second, independent opinion): `variables()` strictly ascending in the
+/// byte order of `String`, equal to `domain().keys()` as a set, and every variable that occurs in the source has a
+/// column AND a domain entry.
+fn check_variable_list(m: &Model, c: &mut Case) {
+    let lm = match Linearizer::linearize(m.clone()) { Ok(lm) => lm, Err(_) => return };
+    let vars = lm.variables();
+    if !vars.windows(2).all(|w| w[0].as_bytes() < w[1].as_bytes()) {
+        c.impl_violation = Some(format!("variables() is not strictly ascending: {:?}", vars));
+        return;
+    }
+    let keys: std::collections::BTreeSet<&String> = lm.domain().keys().collect();
+    let vset: std::collections::BTreeSet<&String> = vars.iter().collect();
+    if keys != vset {
+        c.impl_violation = Some(format!("variables() {:?} and domain().keys() {:?} differ as sets", vars, keys));
+        return;
+    }
+    let mut occ = vec![];
+    exp_vars(&m.objective().rhs, &mut occ);
+    for k in m.constraints() { exp_vars(k.lhs(), &mut occ); if !k.is_logic_assertion() { exp_vars(k.rhs(), &mut occ); } }
+    for v in occ {
+        if vars.binary_search(&v).is_err() || !lm.domain().contains_key(&v) {
+            c.impl_violation = Some(format!("the source variable {} has no column / domain entry in the compiled model ({:?})", v, vars));
+            return;
+        }
+    }
+}
+
+/// names that differ only in letter case, names whose ASCII order differs from the case-insensitive / natural
+/// order (`a B c D`, `x10 x2`), non-ASCII names: the column of a coefficient is found by a search in the SORTED
+/// variable list, so a second notion of order anywhere in the compiler loses or misplaces coefficients.
+fn name_order_case(r: &mut Rng, tag: &str, cfg: &ModelCfg) -> Case {
+    let pool = ["a", "B", "c", "D", "A", "b", "C", "d", "Z", "z", "_x", "x1", "x10", "x2", "X2", "ab", "aB", "Ab", "AB", "a_", "é", "É", "e", "zz", "Zz", "ß", "ss", "ä", "ae"];
+    let base = gen_model::decls(r, cfg);
+    let n = (2 + r.below(4)).max(base.len());
+    let mut ds: Vec<VarDecl> = vec![];
+    for i in 0..n {
+        let name = loop { let c = r.pick(&pool).to_string(); if !ds.iter().any(|d| d.name == c) { break c; } };
+        let ty = if i < base.len() { base[i].ty } else { VariableType::Real(-2.0, 3.0) };
+        ds.push(VarDecl { name, ty });
+    }
+    let (m, _) = gen_model::model_with(r, cfg, ds);
+    let mut c = crate::props::c01::one(&m, "name-order", "c08");
+    c.tags.push(format!("name-order:{}", tag));
+    let names: Vec<&String> = m.domain().keys().collect();
+    if names.iter().any(|a| names.iter().any(|b| a != b && a.to_lowercase() == b.to_lowercase())) { c.tags.push("names-differ-in-case-only".into()); }
+    let mut byte = names.clone(); byte.sort();
+    let mut ci = names.clone(); ci.sort_by_key(|s| s.to_lowercase());
+    if byte != ci { c.tags.push("byte-order-ne-caseless-order".into()); }
+    if names.iter().any(|s| !s.is_ascii()) { c.tags.push("non-ascii-name".into()); }
+    check_variable_list(&m, &mut c);
+    c
+}
+
+/// `impl Display for LinearizationError` against the ported templates (`Lin.LinErr.text`): the message of the error
+/// the implementation returns for `m`, with the texts of the payloads the model does not carry (expression,
+/// requirement, derived bounds) passed along. Also the contract of the `variables` payload on the implementation:
+/// strictly ascending, every name occurs in the offending expression.
+fn display_case(m: &Model) -> Option<Case> {
+    let e = match std::panic::catch_unwind(std::panic::AssertUnwindSafe(|| Linearizer::linearize(m.clone()))) { Ok(Err(e)) => e, _ => return None };
+    let (expr, req, lo, hi) = match &e {
+        LinearizationError::NonLinearExpression(x) | LinearizationError::DivisionByZero(x)
+        | LinearizationError::UnimplementedExpression(x) | LinearizationError::NonBinaryLogicOperand(x) => (x.to_string(), String::new(), String::new(), String::new()),
+        LinearizationError::MissingFiniteBounds { expression, requirement, lower, upper, .. } => (expression.to_string(), requirement.to_string(), lower.to_string(), upper.to_string()),
+        _ => (String::new(), String::new(), String::new(), String::new()),
+    };
+    let mut c = Case::default();
+    let esx = crate::props::c01::lin_error(&e);
+    c.req = format!("linerr-display {} {} {} {} {}", esx, sx::q(&expr), sx::q(&req), sx::q(&lo), sx::q(&hi));
+    c.imp = sx::q(&e.to_string());
+    c.show = format!("{}", m).replace('\n', " ; ");
+    c.tags = vec!["error-display".into(), format!("display:{}", esx.split(|ch| ch == ' ' || ch == ')').nth(1).unwrap_or(""))];
+    if let LinearizationError::MissingFiniteBounds { expression, variables, .. } = &e {
+        c.tags.push(if variables.is_empty() { "display:none-identified".into() } else { format!("display:named-{}", variables.len().min(3)) });
+        if !variables.windows(2).all(|w| w[0] < w[1]) {
+            c.impl_violation = Some(format!("MissingFiniteBounds.variables is not strictly ascending: {:?}", variables));
+        }
+        let mut occ = vec![];
+        exp_vars(expression, &mut occ);
+        if let Some(v) = variables.iter().find(|v| !occ.contains(v)) {
+            c.impl_violation = Some(format!("MissingFiniteBounds names {} which does not occur in the offending expression {}", v, expression));
+        }
+    }
+    Some(c)
+}
+
+/// one model per message shape that the random streams reach rarely.
+fn display_targeted(r: &mut Rng) -> Model {
+    let v = |n: &str| Exp::Variable(n.into());
+    let k = |x: f64| Exp::Number(x);
+    let bin = |op: BinOp, a: Exp, b: Exp| Exp::BinOp(op, Box::new(a), Box::new(b));
+    let free = VariableType::Real(f64::NEG_INFINITY, f64::INFINITY);
+    let boxed = VariableType::Real(-2.0, 3.0);
+    let names = ["x", "y", "z", "B", "a"];
+    let (lhs, tys): (Exp, Vec<VariableType>) = match r.below(7) {
+        // a binary logic operator / a `not` written as an operator node: `simplify` rewrites them into the n-ary nodes,
+        // so the UnimplementedExpression branches of Exp::linearize are not reachable from Linearizer::linearize
+        5 => (bin(*r.pick(&[BinOp::And, BinOp::Or, BinOp::Xor, BinOp::Implies, BinOp::Iff]), v("a"), v("a")), vec![boxed, boxed, boxed, boxed, VariableType::Boolean]),
+        6 => (bin(BinOp::Add, Exp::UnOp(rooc::UnOp::Not, Box::new(v("a"))), v("x")), vec![boxed, boxed, boxed, boxed, VariableType::Boolean]),
+        // two or three unbounded variables under an absolute value that needs its exact value
+        0 => (Exp::Abs(Box::new(bin(BinOp::Add, v("x"), v("y")))), vec![free, free, boxed, boxed, VariableType::Boolean]),
+        1 => (Exp::Abs(Box::new(bin(BinOp::Sub, bin(BinOp::Add, v("z"), v("B")), v("x")))), vec![free, boxed, free, VariableType::NonNegativeReal(0.0, f64::INFINITY), VariableType::Boolean]),
+        // an unbounded derived range that no single variable explains
+        2 => (Exp::Abs(Box::new(bin(BinOp::Mul, v("x"), v("y")))), vec![boxed, boxed, boxed, boxed, VariableType::Boolean]),
+        // a logic operator over a real variable, in value position
+        3 => (bin(BinOp::Add, Exp::And(vec![v("a"), v("y")]), v("x")), vec![boxed, boxed, boxed, boxed, VariableType::Boolean]),
+        // a user variable with the name of the first auxiliary
+        _ => (bin(BinOp::Add, Exp::Abs(Box::new(v("x"))), v("$abs_0")), vec![boxed, boxed, boxed, boxed, VariableType::Boolean]),
+    };
+    let mut ds: Vec<VarDecl> = names.iter().zip(tys).map(|(n, ty)| VarDecl { name: n.to_string(), ty }).collect();
+    ds.push(VarDecl { name: "$abs_0".into(), ty: VariableType::NonNegativeReal(0.0, 3.0) });
+    let cmp = *r.pick(&[Comparison::GreaterOrEqual, Comparison::Equal]);
+    gen_model::build(OptimizationType::Min, v("x"), vec![Constraint::new(lhs, cmp, k(1.0 + r.below(3) as f64), String::new())], &ds)
 }
 
 pub fn generate(seed: u64, n: usize, thorough: bool, corpus: Option<&str>) -> Vec<Case> {
@@ -98,6 +357,31 @@ pub fn generate(seed: u64, n: usize, thorough: bool, corpus: Option<&str>) -> Ve
         let mut c = crate::props::c01::one(&m, "missing-bounds", "c08");
         check_missing_bounds(&m, &mut c);
         out.push(c);
+        if let Some(d) = display_case(&m) { out.push(d); }
+    }
+    // the messages of the other error kinds: the hostile configuration produces all of them
+    let hostile = ModelCfg { max_vars: 4, depth: 3, logic: true, piecewise: true, unbounded: true, fractional: false, strict_cmp: true, hostile: true };
+    for _ in 0..(n / 5).max(60) {
+        let (m, _) = gen_model::model(&mut r, &hostile);
+        if let Some(d) = display_case(&m) { out.push(d); }
+    }
+    for _ in 0..(n / 10).max(80) {
+        let m = display_targeted(&mut r);
+        let mut c = crate::props::c01::one(&m, "targeted-error", "c08");
+        check_missing_bounds(&m, &mut c);
+        out.push(c);
+        if let Some(d) = display_case(&m) { out.push(d); }
+    }
+    for _ in 0..(n / 10).max(30) { out.push(logic_aux_case(&mut r)); }
+    let cfgs = crate::props::c01::configs();
+    for i in 0..(n / 5).max(40) {
+        let (tag, cfg) = &cfgs[i % cfgs.len()];
+        out.push(permutation_case(&mut r, tag, cfg));
+    }
+    for _ in 0..(n / 20).max(20) { out.push(overflow_case(&mut r)); }
+    for i in 0..(n / 5).max(60) {
+        let (tag, cfg) = &cfgs[i % cfgs.len()];
+        out.push(name_order_case(&mut r, tag, cfg));
     }
     let _ = sx::num;
     out
